@@ -23,17 +23,14 @@ try:
         d1rc = d1.returncode
     except subprocess.TimeoutExpired:
         d1rc = 'timeout'
+    # the check runs against the scratch worktree with the change applied (VERIF_REPO), so that /repo is never touched
+    # and several changes can be confirmed at once; the evidence file it writes is put back afterwards
+    c = sh('cd /verif && VERIF_REPO=%s ./check %s --tier %s' % (wt, prop, tier))
+    sh('cd /verif && git checkout -q -- evidence/%s.json' % prop)
 finally:
     sh('git -C /repo worktree remove --force %s' % wt)
 ok_demo = d0.returncode == 0 and d1rc != 0
 ok_tests = base == pat and base.count('PASSED') >= 100
-# now the checks against /repo
-assert sh('git -C /repo apply %s/patch.diff' % src).returncode == 0
-try:
-    c = sh('cd /verif && ./check %s --tier %s' % (prop, tier))
-finally:
-    sh('git -C /repo checkout -- elftools scripts')
-    sh('cd /verif && git checkout -q -- evidence')
 keys = re.findall(r'key=(.*?) count=', c.stdout)
 res = dict(property=prop, name=name, demo_clean_rc=d0.returncode, demo_patched_rc=d1rc, demo_ok=ok_demo,
            suite_outcome_unchanged=ok_tests, suite_passed=base.count('PASSED'),
@@ -50,7 +47,7 @@ if ok_demo and ok_tests:
     res['needs_to_manifest'] = notes[:1500]
     res['ran'] = ['demo.py on a clean scratch worktree (exit 0) and with the patch (non-zero)',
                   'pinned pytest suite in the scratch worktree before/after: identical per-test outcomes',
-                  res['check_cmd'] + ' with the patch applied to /repo, then reverted']
+                  res['check_cmd'] + ' against a scratch worktree of /repo with the patch applied (VERIF_REPO)']
     json.dump(res, open(os.path.join(dst, 'meta.json'), 'w'), indent=1)
     print('kept as', dst)
 else:
